@@ -186,6 +186,23 @@ func (e *PathMatchExpression) PathMatches(base *Path, candidate *Path) bool {
 	return false
 }
 
+// PathMatchesExactly is like PathMatches but candidate has to be the selected node
+// itself, not something inside it.
+func (e *PathMatchExpression) PathMatchesExactly(base *Path, candidate *Path) bool {
+	if len(e.paths) == 0 {
+		return true
+	}
+	for _, path := range e.paths {
+		if len(path) == 0 {
+			return true
+		}
+		if candidate.Len()-base.Len() == len(path) && e.match(path, base, candidate) {
+			return true
+		}
+	}
+	return false
+}
+
 // PathLeadsTo returns true if candidate, after you subtract the base, is a proper
 // beginning of one of the paths, i.e. a container one has to pass thru to reach a
 // selected node.
